@@ -151,6 +151,15 @@ Qed.
    wildcards at 0 and 3 are never listed, positions 1 and 2 are, with `?` for the non-Debug
    argument; and the one shape the grammar excludes because rustc rejects the generated
    debug_inputs for it: a `&&[i32]` parameter is E0034-ambiguous *)
+(* an eq!(..) position whose actual and expected values DIFFER although their Debug texts are identical (a hand-written Debug that
+   hides a field, NaN): the report still lists the position with the actual value's text *)
+Example C19_identical_debug_texts :
+  let actual := VCon "Amb" [VInt 1; VInt 2] in          (* Amb(1, 2) *)
+  accepts (SCmp false 4) actual = false /\              (* eq!(&Amb(1, 0)): 4 * 1 + 0 *)
+  option_map (fun m => (mm_input m, mm_actual m, mm_expected m)) (diag_stmt 0 AKUnknown (TB BAmb) (SCmp false 4) actual)
+  = Some (0%nat, Some "Amb(1)"%string, Some "Amb(1)"%string).
+Proof. vm_compute. split; reflexivity. Qed.
+
 Example C19_nonvacuous :
   let ts := [TB BInt; TRef false (TB BNd); TRef false (TSlice (TB BInt)); TB BGen] in
   let ps := [SWild; SPath "A"; SSlice [SLit 1] true []; SWild] in
